@@ -187,6 +187,15 @@ Section KeysPresentTheorem.
         apply (H x Hx); [|exact Hw]. apply (frag_all_In args Har x Hx).
       + eapply Kres_unionM; [|exact Ec]. intros x Hx. rewrite Forall_forall in H0.
         apply (H0 x Hx); [|exact Hw]. apply (frag_all_In kwargs Hkw x Hx).
+    - (* ETemplate *)
+      unf keys_ETemplate. intros K l E.
+      apply bind_ok in E as (a & s1 & l1 & l2 & Ea & E & _). destruct s1.
+      apply bind_ok in E as (b & s2 & l3 & l4 & Eb & E & _). destruct s2.
+      unfold ret in E. inversion E; subst.
+      apply P_app.
+      + eapply Kres_unionM; [|exact Ea]. intros pe Hpe. rewrite Forall_forall in H.
+        apply (H pe Hpe); [|exact Hw]. apply (frag_ps_In ps Hf pe Hpe).
+      + eapply Kres_unionM; [|exact Eb]. intros; apply Kres_ref_keys.
     - (* EComp *)
       apply andb_prop in Hf as [Hfe _]. unf keys_EComp. apply (IHe Hfe o Hw).
     - (* ELogged *)
